@@ -177,6 +177,32 @@ Theorem C30_bare_used_type_to_union : forall a a' c0 c t,
 Proof. intros a a' c0 c t. apply reject_bare_used_to_union. reflexivity. Qed.
 Print Assumptions C30_bare_used_type_to_union.
 
+(** the same, spelled out for the usage that carries no mark at all: the type is referenced by
+    its lower-case CONSTRUCTOR name ([b:integer], [= Vector integer], [(vector (vector integer))]:
+    tlast sets TypeRef.Bare only for an explicit %, so [bare] is arbitrary here) -- in a field or
+    in the result of ANY combinator of the old schema, directly or as the first type argument at
+    any depth; the new schema is arbitrary apart from giving the type a second constructor (in
+    particular: nothing else changed) *)
+Theorem C30_constructor_name_used_type_to_union : forall a a' c0 c bare args,
+  types_of a (c_tname c0) = [c0] -> (1 < length (types_of a' (c_tname c0)))%nat ->
+  In c a ->
+  (c_res c = TRef (c_name c0) bare args \/ exists f, In f (c_fields c) /\ f_ty f = TRef (c_name c0) bare args) ->
+  exists code, lint_fixed a a' = Reject code.
+Proof. intros a a' c0 c bare args. apply reject_ctor_name_used_to_union. reflexivity. Qed.
+Print Assumptions C30_constructor_name_used_type_to_union.
+
+(** ... or as the first type argument (after any arithmetic ones) at any depth: [nest ws t] wraps
+    [t] that way in each of [ws] *)
+Theorem C30_constructor_name_nested_to_union : forall a a' c0 c bare args ws,
+  types_of a (c_tname c0) = [c0] -> (1 < length (types_of a' (c_tname c0)))%nat ->
+  In c a ->
+  Forall (fun w => Forall (fun t => exists n, t = TNat n) (snd (fst w))) ws ->
+  (c_res c = nest ws (TRef (c_name c0) bare args) \/
+   exists f, In f (c_fields c) /\ f_ty f = nest ws (TRef (c_name c0) bare args)) ->
+  exists code, lint_fixed a a' = Reject code.
+Proof. intros a a' c0 c bare args ws. apply reject_ctor_name_nested_to_union. reflexivity. Qed.
+Print Assumptions C30_constructor_name_nested_to_union.
+
 (* ---- non-vacuity: the premises are satisfiable, the classes are not empty *)
 
 Example C30_ex_type_not_prefix : ~ ty_prefix (TRef "int" false []) (TRef "long" false []).
@@ -201,4 +227,21 @@ Example C30_ex_reuse_bit :
 Proof. vm_compute. reflexivity. Qed.
 Example C30_ex_mask_bit :
   lint_fixed [ex_c] [mkComb "t" 1 false false [] [mkField "m" None "" (TRef "#" false []); mkField "x" (Some ("m", 3%N)) "" (TRef "int" false [])] "T" (TRef "" false [])] = Reject RMaskBit.
+Proof. vm_compute. reflexivity. Qed.
+
+(** by-name usage, nothing else changed: [holder a:int b:(vector integer)], [integer2 = Integer] added *)
+Definition un_integer : comb := mkComb "integer" 7 false false [] [mkField "value" None "" (TRef "int" false [])] "Integer" (TRef "" false []).
+Definition un_holder : comb :=
+  mkComb "holder" 8 false false [] [mkField "a" None "" (TRef "int" false []); mkField "b" None "" (TRef "vector" false [TRef "integer" false []])] "Holder" (TRef "" false []).
+Definition un_integer2 : comb := mkComb "integer2" 9 false false [] [] "Integer" (TRef "" false []).
+Example C30_ex_union_by_name : exists code, lint_fixed [un_holder; un_integer] [un_holder; un_integer; un_integer2] = Reject code.
+Proof.
+  apply (C30_constructor_name_nested_to_union _ _ un_integer un_holder false [] [("vector", false, [], [])]).
+  - reflexivity.
+  - cbn. auto.
+  - left; reflexivity.
+  - repeat constructor.
+  - right. eexists. split; [right; left; reflexivity|reflexivity].
+Qed.
+Example C30_ex_union_by_name_class : lint [un_holder; un_integer] [un_holder; un_integer; un_integer2] = Reject RUnionCtor.
 Proof. vm_compute. reflexivity. Qed.
